@@ -134,6 +134,16 @@ M = [
  ("c09_feed_returns_len", "C09", "returns-consumed", "crates/jxl-oxide/src/lib.rs",
   "                    self.inner.aux_boxes.handle_event(aux_box_event)?;\n                }\n            }\n        }\n        Ok(self.reader.previous_consumed_bytes())",
   "                    self.inner.aux_boxes.handle_event(aux_box_event)?;\n                }\n            }\n        }\n        Ok(buf.len())"),
+ ("c18_interp_order1_sign", "C18", "script:predict width 1 order 1", "crates/jxl-color/src/icc/decode.rs",
+  "                        1 => Wrapping(2) * prev[0] - prev[1],", "                        1 => Wrapping(2) * prev[0] + prev[1],"),
+ ("c18_interp_xyz_triple_offset", "C18", "script:tag list", "crates/jxl-color/src/icc/decode.rs",
+  "                out.extend_from_slice(&(tagstart + tagsize * 2).to_be_bytes());", "                out.extend_from_slice(&(tagstart + tagsize * 3).to_be_bytes());"),
+ ("c18_interp_prev_offset", "C18", "script:predict width", "crates/jxl-color/src/icc/decode.rs",
+  "                        let offset = out.len() - stride * (j + 1);", "                        let offset = out.len() - stride * (j + 1) - (j & 1);"),
+ ("c18_interp_type_command_base", "C18", "script:XYZ command and the eight type commands", "crates/jxl-color/src/icc/decode.rs",
+  "                out.extend_from_slice(COMMON_DATA[command as usize - 16]);", "                out.extend_from_slice(COMMON_DATA[(command as usize - 16) ^ 1]);"),
+ ("c18_shuffle4_tail_order", "C18", "shuffle4|permutation", "crates/jxl-color/src/icc/decode.rs",
+  "        out.push(bytes[(step + 1) * idx - 1]);", "        out.push(bytes[(step + 1) * (wide_count + 1 - idx) - 1]);"),
  ("c18_final_size_check_removed", "C18", "len(out) != output_size", "crates/jxl-color/src/icc/decode.rs",
   "    if out.len() != output_size as usize {\n        return Err(Error::InvalidIccStream(\"decoded ICC profile size mismatch\"));\n    }\n", ""),
  ("c18_stride_check_relaxed", "C18", "stride < width", "crates/jxl-color/src/icc/decode.rs",
